@@ -284,6 +284,7 @@ class Pure:
     def __enter__(self):
         self.saved = self.ctx.branch
         ctx = self.ctx
+        ctx.pure = getattr(ctx, "pure", 0) + 1
 
         def nofork(cond, label=""):
             c = cond if isinstance(cond, bool) else conc(cond)
@@ -297,6 +298,7 @@ class Pure:
         self.ctx.branch = nofork
 
     def __exit__(self, *a):
+        self.ctx.pure -= 1
         self.ctx.branch = self.saved
 
 
@@ -470,6 +472,7 @@ def list_slice(interp, lst, sl):
 
 
 def list_setitem(interp, lst, idx, v):
+    interp.writes.append((lst, "setitem"))
     if isinstance(idx, VSlice):
         raise OutOfReach("slice assignment on a list")
     i = _norm_index(interp, lst, idx)
@@ -498,6 +501,7 @@ def _ite_value(c, a, b):
 
 
 def list_delitem(interp, lst, idx):
+    interp.writes.append((lst, "delitem"))
     if isinstance(idx, VSlice):
         raise OutOfReach("del of a list slice")
     i = _norm_index(interp, lst, idx)
@@ -513,6 +517,15 @@ def list_delitem(interp, lst, idx):
     old, n = lst.at, lst.n
     lst.n = z3.simplify(zint(n) - 1)
     lst.at = lambda j: old(If(zint(j) < zint(i), zint(j), zint(j) + 1)) if True else None
+
+
+def sym_list_eq(interp, a, b):
+    """list == list for symbolic lists: same length and pairwise (identity or ==)"""
+    ctx = interp.ctx
+    j = z3.Const(f"leq!{ctx.uid()}", I)
+    with Pure(ctx):
+        t = elem_equal(interp, a.elem(j), b.elem(j))
+    return And(eq(a.length, b.length), z3.ForAll([j], z3.Implies(zbool(rng(0, j, a.length)), zbool(t))))
 
 
 def elem_equal(interp, x, y):
@@ -541,6 +554,7 @@ def list_method(interp, lst, name):
 
     def append(interp, args, kwargs):
         (x,) = args
+        interp.writes.append((lst, "append"))
         cap = getattr(lst, "_capture", None)
         if cap:
             cap[-1].append(x)
